@@ -41,6 +41,10 @@ const Chunk = 16384
 
 var once sync.Once
 
+// realStderr keeps descriptor 2's *os.File reachable (its finalizer would
+// close the descriptor and swallow the runtime's crash reports).
+var realStderr = os.Stderr
+
 // Init does what storrent's main() does before serving, registers the three
 // HTTP handlers on http.DefaultServeMux by calling the real Serve once (it
 // also opens a loopback listener that the checks never use), and silences
